@@ -105,7 +105,7 @@ class LocationRejects(Job):
 
 
 def jobs(tier):
-    N = 3 if tier == "quick" else 6
+    N = 4 if tier == "quick" else 10
     out = []
     for n in range(0, N + 1):
         for bbox in ("default", "given"):
@@ -128,12 +128,12 @@ ASSUMPTIONS = ["numpy.ma environment model validated per path against numpy 1.26
 
 
 def bounds(tier):
-    return {"track_length": "0..3" if tier == "quick" else "0..6", "bbox": "default and 4 symbolic numbers", "range_max": "absent / symbolic >= 0",
+    return {"track_length": "0..4" if tier == "quick" else "0..10", "bbox": "default and 4 symbolic numbers", "range_max": "absent / symbolic >= 0",
             "missing": "independent NaN flags on lon and lat"}
 
 
 LEVEL_TEXT = ("bounded symbolic model checking of the real location_test + great_circle_distance source; box membership and "
               "missing-coordinate rules are decided for all inputs, the hop rule relative to an uninterpreted geodesic (so wrong "
               "rows, swapped arguments or a wrong comparison change the term and are refuted)")
-LEVEL_NOTE = "bounds: n<=3/5, grid G; geodesic uninterpreted (CEGAR replay against geographiclib); numpy.ma model validated by witnesses"
+LEVEL_NOTE = "bounds: n<=4/10, grid G; geodesic uninterpreted (CEGAR replay against geographiclib); numpy.ma model validated by witnesses"
 TECHNIQUE = "symbolic execution of the real Python source over a modelled numpy + z3 (SMT, QF_UFLRA) with CEGAR replay"
